@@ -113,10 +113,14 @@ def csv_only(kw):
     return {k: v for k, v in (kw or {}).items() if k in ("delimiter", "quotechar", "quoting")}
 
 
-def recorded_run(tf, workdir, hist, op, auto=True, storage_kwargs=None, other_fs=False):
+def recorded_run(tf, workdir, hist, op, auto=True, storage_kwargs=None, other_fs=False, mode=None):
     s = Session(tf, workdir, auto, storage_kwargs, other_fs)
     try:
         houts = s.run(hist)
+        if mode is not None:
+            # close, then open the same file again in the requested access mode
+            s.driver.close()
+            s.driver = dbimpl.Driver(tf, True, auto, s.dbdir, dict(s.kw, access_mode=mode))
         before_bytes = read_file(s.path)
         before = s.contents()
         lst_before = (listing(s.dbdir), listing(s.tmpdir))
